@@ -247,8 +247,11 @@ func runR09_2(c *Ctx, r *R) {
 			for _, call := range callsIn(a, false) {
 				lbls[calleeLabel(call)] = true
 			}
-			if lbls["channels.Delete"] && (lbls["free"] || lbls["ch.free"]) {
-				found = true
+			// (who may release is R06.2's business; here only: every remaining channel is released)
+			for l := range lbls {
+				if l == "free" || strings.HasSuffix(l, ".free") {
+					found = true
+				}
 			}
 		}
 		if found {
